@@ -47,6 +47,7 @@ def main(argv=None):
     mirs = {}
     dump_s = 0.0
     fatal = None
+    jobs = []
     for ob in obs:
         if ob.tier == "thorough" and tier != "thorough":
             continue
@@ -58,83 +59,78 @@ def main(argv=None):
                 except Exception as e:
                     fatal = "MIR dump failed for profile %s: %s" % (profile, e)
                     break
-            ctx = oblig.ObCtx(run, ob, mirs[profile])
-            t1 = time.time()
-            try:
-                ob.func(ctx)
-            except (sym.Unsupported, LookupError) as e:
-                ctx.inconclusive("%s: %s" % (type(e).__name__, e))
-            except Exception as e:
-                ctx.inconclusive("internal error: %s\n%s" % (e, traceback.format_exc()[-1500:]))
-            ctx.rec["wall_s"] = round(time.time() - t1, 3)
-            run.records.append(ctx.rec)
-            if a.verbose:
-                print("  [%s] %s (%s) paths=%d queries=%d %.2fs" % (
-                    ctx.rec["status"], ob.id, profile, ctx.rec["paths"], ctx.rec["queries"], ctx.rec["wall_s"]))
-                for n in ctx.rec["notes"]:
-                    print("      " + n[:600])
+            jobs.append((ob, profile))
         if fatal:
             break
     if fatal:
         run.problems.append(fatal)
+        jobs = []
+    # make sure the replay binaries exist before forking (workers only read them)
+    global _JOBS, _CTX
+    _JOBS = jobs
+    _CTX = (prop, tier, seed, mirs)
+    try:
+        nproc = int(os.environ.get("VERIF_JOBS", "0")) or min(len(jobs), os.cpu_count() or 1, 16)
+    except ValueError:
+        nproc = 1
+    results = []
+    if nproc <= 1 or len(jobs) <= 1:
+        for i in range(len(jobs)):
+            results.append(_work(i))
+    else:
+        import multiprocessing as mp
+        ctxmp = mp.get_context("fork")
+        with ctxmp.Pool(processes=nproc) as pool:
+            for r in pool.imap_unordered(_work, range(len(jobs))):
+                results.append(r)
+    results.sort(key=lambda r: r["index"])
 
-    # ---- second-solver confirmation
-    run.run_crosschecks(budget_s=90 if tier == "quick" else 900)
-
-    # ---- native replay of counterexamples
     known = oblig.load_known()
     violations = []
     known_hits = []
     nonrepro = []
     os.makedirs(os.path.join(VERIF, "replays", prop), exist_ok=True)
     seen_keys = set()
-    for c in run.candidates:
-        key = (c.ob_id, json.dumps(c.facts, sort_keys=True, default=str))
-        if key in seen_keys:
-            continue
-        seen_keys.add(key)
-        reproduced = None
-        if not c.scenarios or c.judge is None:
-            c.reproduced = False
-            nonrepro.append((c, "no public-API scenario template for this counterexample"))
-            continue
-        last = None
-        for sc in c.scenarios:
-            try:
-                obsv = replay_mod.run(sc)
-                run.replays += len(obsv)
-            except Exception as e:
-                run.problems.append("replay failed: %s" % e)
-                last = "replay infrastructure error: %s" % e
+    for r in results:
+        rec = r["rec"]
+        run.records.append(rec)
+        run.total_queries += r["queries"]
+        run.total_branch_checks += r["branch_checks"]
+        run.replays += r["replays"]
+        run.problems.extend(r["problems"])
+        for k, v in r["cross_stats"].items():
+            run.cross_stats[k] += v
+        if a.verbose:
+            print("  [%s] %s (%s) paths=%d queries=%d %.2fs" % (
+                rec["status"], rec["id"], rec["profile"], rec["paths"], rec["queries"], rec["wall_s"]))
+            for n in rec["notes"]:
+                print("      " + n[:600])
+        for cd in r["cands"]:
+            key = (cd["ob_id"], json.dumps(cd["facts"], sort_keys=True, default=str))
+            if key in seen_keys:
                 continue
-            why = c.judge(obsv, sc)
-            last = {p: o.summary() for p, o in obsv.items()}
-            if why:
-                reproduced = (sc, why, obsv)
-                break
-        if reproduced is None:
-            c.reproduced = False
-            nonrepro.append((c, "counterexample did not reproduce natively: %s" % json.dumps(last, default=str)[:600]))
-            continue
-        sc, why, obsv = reproduced
-        c.reproduced = True
-        n = len(os.listdir(os.path.join(VERIF, "replays", prop)))
-        path = os.path.join(VERIF, "replays", prop, "%s-%d.json" % (c.ob_id.replace("/", "_"), n))
-        with open(path, "w") as f:
-            json.dump({"property": prop, "obligation": c.ob_id, "profile_of_encoding": c.profile, "label": c.label,
-                       "facts": c.facts, "solver_model": c.model, "deviation": why, "scenario": sc.to_json(),
-                       "observed": {p: o.text for p, o in obsv.items()},
-                       "how_to_replay": "python3-vt -m mirsym.replay_cli %s" % path}, f, indent=1, default=str)
-        c.replay_path = path
-        hit = None
-        for kf in known.get("findings", []):
-            if oblig.finding_matches(kf, c):
-                hit = kf
-                break
-        if hit:
-            known_hits.append((c, hit, why))
-        else:
-            violations.append((c, why))
+            seen_keys.add(key)
+            c = oblig.Candidate(cd["ob_id"], cd["profile"], cd["label"], cd["model"], cd["facts"], [], None, cd["label"])
+            if not cd["reproduced"]:
+                nonrepro.append((c, cd["why"]))
+                continue
+            n = len(os.listdir(os.path.join(VERIF, "replays", prop)))
+            path = os.path.join(VERIF, "replays", prop, "%s-%d.json" % (c.ob_id.replace("/", "_"), n))
+            with open(path, "w") as f:
+                json.dump({"property": prop, "obligation": c.ob_id, "profile_of_encoding": c.profile, "label": c.label,
+                           "facts": c.facts, "solver_model": c.model, "deviation": cd["why"], "scenario": cd["scenario"],
+                           "observed": cd["observed"],
+                           "how_to_replay": "python3-vt -m mirsym.replay_cli %s" % path}, f, indent=1, default=str)
+            c.replay_path = path
+            hit = None
+            for kf in known.get("findings", []):
+                if oblig.finding_matches(kf, c):
+                    hit = kf
+                    break
+            if hit:
+                known_hits.append((c, hit, cd["why"]))
+            else:
+                violations.append((c, cd["why"]))
 
     # ---- verdict
     inconclusive = [r for r in run.records if r["status"] == "inconclusive"]
@@ -179,6 +175,71 @@ def main(argv=None):
     for l in status_lines:
         print(l)
     return rc
+
+
+_JOBS = []
+_CTX = None
+MAX_REPLAYED_PER_OBLIGATION = 12
+
+
+def _work(i):
+    """Run one (obligation, profile) job: explore, decide, confirm on the second solver, replay counterexamples.
+    Returns plain data (picklable) so that jobs can run in forked worker processes."""
+    ob, profile = _JOBS[i]
+    prop, tier, seed, mirs = _CTX
+    sub = oblig.Run(prop, tier, seed + i)
+    ctx = oblig.ObCtx(sub, ob, mirs[profile])
+    t1 = time.time()
+    try:
+        ob.func(ctx)
+    except (sym.Unsupported, LookupError) as e:
+        ctx.inconclusive("%s: %s" % (type(e).__name__, e))
+    except Exception as e:
+        ctx.inconclusive("internal error: %s\n%s" % (e, traceback.format_exc()[-1500:]))
+    ctx.rec["wall_s"] = round(time.time() - t1, 3)
+    sub.run_crosschecks(budget_s=60 if tier == "quick" else 600)
+    cands = []
+    seen = set()
+    replayed = 0
+    for c in sub.candidates:
+        key = json.dumps(c.facts, sort_keys=True, default=str)
+        if key in seen:
+            continue
+        seen.add(key)
+        d = {"ob_id": c.ob_id, "profile": c.profile, "label": c.label, "facts": c.facts, "model": c.model,
+             "reproduced": False, "why": "", "scenario": None, "observed": None}
+        if not c.scenarios or c.judge is None:
+            d["why"] = "no public-API scenario template for this counterexample"
+            cands.append(d)
+            continue
+        if replayed >= MAX_REPLAYED_PER_OBLIGATION:
+            d["why"] = "not replayed: more than %d distinct counterexamples for this obligation" % MAX_REPLAYED_PER_OBLIGATION
+            cands.append(d)
+            continue
+        replayed += 1
+        last = None
+        for sc in c.scenarios:
+            try:
+                obsv = replay_mod.run(sc)
+                sub.replays += len(obsv)
+            except Exception as e:
+                sub.problems.append("replay failed: %s" % e)
+                last = "replay infrastructure error: %s" % e
+                continue
+            why = c.judge(obsv, sc)
+            last = {p: o.summary() for p, o in obsv.items()}
+            if why:
+                d.update(reproduced=True, why=why, scenario=sc.to_json(), observed={p: o.text for p, o in obsv.items()})
+                break
+        if not d["reproduced"]:
+            d["why"] = "counterexample did not reproduce natively: %s" % json.dumps(last, default=str)[:600]
+        cands.append(d)
+    # if something reproduced, the cap message of the others is noise, not an inconclusive result
+    if any(x["reproduced"] for x in cands):
+        cands = [x for x in cands if x["reproduced"] or not x["why"].startswith("not replayed")]
+    return {"index": i, "rec": ctx.rec, "cands": cands, "queries": sub.total_queries,
+            "branch_checks": sub.total_branch_checks, "replays": sub.replays, "problems": sub.problems,
+            "cross_stats": sub.cross_stats}
 
 
 def write_evidence(run, prop, tier, seed, wall, dump_s, violations, known_hits, nonrepro, mirs):
